@@ -11,7 +11,7 @@ ID = 'C06'
 LEAN_MODULE = 'PncProofs.C06'
 LEAN_FILE = 'PncProofs/C06.lean'
 NAMESPACE = 'Props.C06'
-LEAN_CONE = ['PncModel.Arr', 'PncModel.File', 'PncProofs.ArrLemmas', 'PncProofs.FiberLemmas', 'PncProofs.C03', 'PncProofs.C01',
+LEAN_CONE = ['PncModel.Arr', 'PncModel.NsStep', 'PncModel.Generated.NamespaceOrder', 'PncModel.File', 'PncProofs.ArrLemmas', 'PncProofs.FiberLemmas', 'PncProofs.C03', 'PncProofs.C01',
              'PncProofs.NamesLemmas', 'PncProofs.C06']
 LEMMA_FILES = ['PncProofs/NamesLemmas.lean']
 REQUIRED_THEOREMS = ['zip_get', 'op_masked_operand', 'op_add_mul', 'op_div_zero', 'op_div', 'coords_passthrough',
@@ -19,6 +19,8 @@ REQUIRED_THEOREMS = ['zip_get', 'op_masked_operand', 'op_add_mul', 'op_div_zero'
                      'eval_pointwise', 'pncexpr_resolves', 'pncexpr_sound', 'eval_resolves', 'evalIn_eq_eval',
                      'pncexpr_eq_eval', 'evalns_eq_eval', 'constants_last_counterexample', 'evalInto_spec', 'eval_creates',
                      'pncexpr_creates']
+# helper lemmas that tie the model's namespaces to the order of the statements in the source (regenerated on every run)
+GENERATED_TIE = ['PFile.pncexprEnv_closed', 'PFile.evalEnv_closed']
 RULE = ('kind binop: two conforming files (same dimensions/variables, float64 or int32, masked operands, zero and '
         'negative divisors, small integer and half-integer values, declared coordinate variables, a variable '
         'missing on the right) x the 13 operators + - * / // ** % < <= > >= == !=; kind mask: every subset of '
